@@ -13,4 +13,6 @@ static inline void xc_sb_push(xc_sb *s, char c)
   s->data[s->len] = c;
   s->len++;
 }
+/* append(const char *, n) / append(const std::string &): character by character (used only by fully unwound harnesses: no loop contract) */
+static inline void xc_sb_append(xc_sb *s, const char *d, size_t n) { for (size_t i = 0; i < n; i++) xc_sb_push(s, d[i]); }
 #endif
